@@ -133,8 +133,18 @@ ValOK(r) ==
              THEN (IF pl.p \in {"applyperm", "invperm"} THEN r.res \in {"error", "value"} ELSE r.res = "error")
              ELSE r.res = "value" /\ r.out = Exec(pl, r.args, r.ty)
 
+\* whole-graph evaluation (Evaluator::evaluate_graph, the machine of spec/EvalGraph.tla) of a random graph with a
+\* random output node, against node-by-node evaluation of the same graph with the same inputs and PRNG seed:
+\* a value iff no node failed at run time, then of the output's type and equal to the node-by-node value;
+\* a runtime error iff some node failed; never a panic
+GraphOK(r) ==
+  CASE r.res = "value" -> ~r.node_rt /\ r.chk /\ r.same
+    [] r.res = "error" -> r.node_rt
+    [] OTHER -> FALSE
+
 CaseOK(r) ==
   CASE r.kind = "type" -> OpType(r.rec, r.ats) = r.ty
+    [] r.kind = "graph" -> GraphOK(r)
     [] r.kind = "val" -> ValOK(r)
     [] r.kind = "shape" -> r.chk /\ ShapeOK(r.tree, r.ty)
     [] r.kind = "rt" -> r.op \in MayFail
